@@ -305,6 +305,39 @@ def one_run(seed):
                 continue
             ok = await do_init(expect_answer=not con.silent)
             trace.append(("init", ok, round(loop.time(), 3)))
+            if ok and rng.random() < 0.12:
+                # steered: an outage that ends around a heartbeat tick, ten commands buffered meanwhile, and an application that
+                # takes a moment over the reconnection - the tick finds the socket marked connected and the buffer still full
+                stats["outage_at_tick"] = stats.get("outage_at_tick", 0) + 1
+                t_mon = loop.time()
+                delay = rng.choice([1.0, 3.0, 4.0])
+
+                async def slow_reconnect(*, connected):
+                    if connected:
+                        await asyncio.sleep(delay)
+                sock.subscribe_on_connection_changed(slow_reconnect)
+                n_ref = rng.randint(1, 3)
+                await asyncio.sleep(300.0 - 2.0 * n_ref - rng.choice([0.5, 1.0, 2.0]))
+                net.script = [("refuse", 0.0)] * n_ref
+                if sock._reader is not None:
+                    sock._reader.feed_eof()
+                await asyncio.sleep(0.2)
+                for _ in range(12):
+                    await user_command()
+                c0 = None
+                await asyncio.sleep(40.0)           # everything buffered has been written or has expired by now
+                c0 = len(net.opened)
+                n_req = len(con.requests)
+                await asyncio.sleep(1500.0)
+                hb = [t for t, c, n in con.requests[n_req:] if n == "ConsoleVersionRequest"]
+                stats["heartbeats"] += len(hb)
+                if len(hb) < 4:
+                    note("C08", f"{len(hb)} heartbeats in the 1500 s after an outage that ended around a tick (monitoring since {round(t_mon, 2)})")
+                if len(net.opened) != c0:
+                    note("C08", f"{len(net.opened) - c0} reconnection(s) on a link that stayed up and answers every heartbeat, after an outage around a tick")
+                sock.unsubscribe_on_connection_changed(slow_reconnect)
+                await do_shutdown()
+                continue
             if ok:
                 # a stretch of normal life
                 t_start, c_start = loop.time(), len(net.opened)
